@@ -150,6 +150,9 @@ type modelCall struct {
 	Mode  string // "generate" | "stream"
 	Input []nMsg // deep copy at call time
 	Bound bool   // the instance that was called had the tools bound
+	// Changed: the input slice the model was given had other contents when the model call
+	// was allowed to proceed (gated runs only): somebody wrote into it during the call
+	Changed []nMsg
 }
 
 type toolInv struct {
@@ -160,21 +163,54 @@ type toolInv struct {
 	Via    string // "invoke" | "stream" | "unknown-handler"
 }
 
-type ctxKey struct{}
-
-type runRec struct {
-	mu           sync.Mutex
-	calls        []modelCall
-	tools        []toolInv
-	checkerCalls int
-	checkerCtxOK int // the checker's ctx carried the value of the run's ctx
+// checkerObs: what a custom StreamToolCallChecker found in the context it was given.
+type checkerObs struct {
+	Token    any   // ctx.Value(tokenKey{}): must be the token of the run
+	CtorOnly bool  // a value that only the constructor's context carries is visible
+	Err      error // ctx.Err() at the time of the call
+	HasEnv   bool
 }
 
-// recorder is shared by the model instances and tools of one agent; cur is switched
-// by the harness between the (strictly sequential) runs.
+type runRec struct {
+	mu      sync.Mutex
+	calls   []modelCall
+	tools   []toolInv
+	checker []checkerObs
+}
+
+// Context keys. envKey carries the harness' per-run environment, tokenKey the per-run value
+// that the custom checkers read; ctorOnlyKey is only ever put into the context given to NewAgent.
+type (
+	envKey      struct{}
+	tokenKey    struct{}
+	ctorOnlyKey struct{}
+	noiseKey    int
+)
+
+// runEnv is the per-run value put into the context passed to Generate / Stream.
+type runEnv struct {
+	Token string
+	Idx   int       // index of the run inside a group of overlapping runs
+	c     *caseSpec // script and input of this run (overlapping runs: one script per run)
+	rr    *runRec
+	sched *sched // nil: the run is not gated
+	early bool   // "value-steered" checker: return at the first tool-call chunk
+}
+
+func envOf(ctx context.Context) *runEnv {
+	e, _ := ctx.Value(envKey{}).(*runEnv)
+	return e
+}
+
+// recorder is shared by the model instances and tools of one agent. For sequential runs
+// cur is switched by the harness between the runs (nothing depends on the context then);
+// for overlapping runs (byCtx) a call is attributed to its run through the context that
+// eino hands to the model / tool; what cannot be attributed goes to orphan.
 type recorder struct {
 	mu         sync.Mutex
 	cur        *runRec
+	byCtx      bool
+	orphan     *runRec
 	boundInfos [][]string // tool names passed to WithTools / BindTools, per call
 }
 
@@ -182,6 +218,19 @@ func (r *recorder) rec() *runRec {
 	r.mu.Lock()
 	defer r.mu.Unlock()
 	return r.cur
+}
+
+// recOf: the record (and, for overlapping runs, the environment) of the run ctx belongs to.
+func (r *recorder) recOf(ctx context.Context) (*runRec, *runEnv) {
+	r.mu.Lock()
+	defer r.mu.Unlock()
+	if !r.byCtx {
+		return r.cur, nil
+	}
+	if e := envOf(ctx); e != nil && e.rr != nil {
+		return e.rr, e
+	}
+	return r.orphan, nil
 }
 
 func (r *recorder) set(x *runRec) {
@@ -202,22 +251,57 @@ type scripted struct {
 	firstChunk bool // use the contract-conforming chunking
 }
 
-func (m *scripted) record(mode string, input []*schema.Message) int {
-	rr := m.rec.rec()
+// enter records the call (deep copy of the input) and, for a gated run, waits for the
+// call's turn; it returns the number k of the call within its run and the run's script.
+func (m *scripted) enter(ctx context.Context, mode string, input []*schema.Message) (int, *caseSpec) {
+	rr, env := m.rec.recOf(ctx)
+	c := m.c
+	if env != nil && env.c != nil {
+		c = env.c
+	}
 	rr.mu.Lock()
-	defer rr.mu.Unlock()
 	rr.calls = append(rr.calls, modelCall{Mode: mode, Input: normAll(input), Bound: m.bound})
-	return len(rr.calls)
+	k := len(rr.calls)
+	rr.mu.Unlock()
+	if env != nil && env.sched != nil {
+		env.sched.pass(env.Idx, evModel, k)
+		// the messages the model is looking at must still be the ones it was given
+		after := normAll(input)
+		rr.mu.Lock()
+		if !sameMsgs(rr.calls[k-1].Input, after) {
+			rr.calls[k-1].Changed = after
+		}
+		rr.mu.Unlock()
+	}
+	return k, c
 }
 
-func (m *scripted) Generate(_ context.Context, input []*schema.Message, _ ...model.Option) (*schema.Message, error) {
-	k := m.record("generate", input)
-	return fullMessage(m.c, k), nil
+func sameMsgs(a, b []nMsg) bool {
+	if len(a) != len(b) {
+		return false
+	}
+	for i := range a {
+		if !a[i].equal(b[i]) {
+			return false
+		}
+	}
+	return true
 }
 
-func (m *scripted) Stream(_ context.Context, input []*schema.Message, _ ...model.Option) (*schema.StreamReader[*schema.Message], error) {
-	k := m.record("stream", input)
-	chunks := chunkMessages(m.c, k, m.firstChunk)
+func (m *scripted) Generate(ctx context.Context, input []*schema.Message, _ ...model.Option) (*schema.Message, error) {
+	k, c := m.enter(ctx, "generate", input)
+	if len(c.Script) == 0 {
+		return schema.AssistantMessage("call without run context", nil), nil
+	}
+	return fullMessage(c, k), nil
+}
+
+func (m *scripted) Stream(ctx context.Context, input []*schema.Message, _ ...model.Option) (*schema.StreamReader[*schema.Message], error) {
+	k, c := m.enter(ctx, "stream", input)
+	if len(c.Script) == 0 {
+		return schema.StreamReaderFromArray([]*schema.Message{schema.AssistantMessage("call without run context", nil)}), nil
+	}
+	chunks := chunkMessages(c, k, m.firstChunk)
 	if !m.a.PipeModel {
 		return schema.StreamReaderFromArray(chunks), nil
 	}
@@ -306,10 +390,20 @@ func (t *baseTool) Info(context.Context) (*schema.ToolInfo, error) {
 }
 
 func (t *baseTool) note(ctx context.Context, args, via string) {
-	rr := t.rec.rec()
+	noteTool(t.rec, ctx, t.spec.Name, args, via)
+}
+
+// noteTool records a tool invocation with the round it belongs to (= number of model calls
+// its run has made) and, for a gated run, holds the tool until it is the round's turn.
+func noteTool(rec *recorder, ctx context.Context, name, args, via string) {
+	rr, env := rec.recOf(ctx)
 	rr.mu.Lock()
-	rr.tools = append(rr.tools, toolInv{Round: len(rr.calls), Name: t.spec.Name, Args: args, CallID: compose.GetToolCallID(ctx), Via: via})
+	round := len(rr.calls)
+	rr.tools = append(rr.tools, toolInv{Round: round, Name: name, Args: args, CallID: compose.GetToolCallID(ctx), Via: via})
 	rr.mu.Unlock()
+	if env != nil && env.sched != nil {
+		env.sched.pass(env.Idx, evTools, round)
+	}
 }
 
 func (t *baseTool) invoke(ctx context.Context, args string) (string, error) {
@@ -337,8 +431,11 @@ func (t *baseTool) stream(ctx context.Context, args string) (*schema.StreamReade
 		sw.Close()
 		return sr, nil
 	}
-	parts := splitStr(r, res, r.Range(1, 4))
-	return schema.StreamReaderFromArray(parts), nil
+	n := r.Range(1, 4)
+	if t.c.ToolChunkMax > 1 {
+		n = r.Range(2, t.c.ToolChunkMax)
+	}
+	return schema.StreamReaderFromArray(splitStr(r, res, n)), nil
 }
 
 type invTool struct{ baseTool }
@@ -380,44 +477,8 @@ func buildTools(c *caseSpec, rec *recorder) []tool.BaseTool {
 
 func unknownHandler(rec *recorder) func(ctx context.Context, name, input string) (string, error) {
 	return func(ctx context.Context, name, input string) (string, error) {
-		rr := rec.rec()
-		rr.mu.Lock()
-		rr.tools = append(rr.tools, toolInv{Round: len(rr.calls), Name: name, Args: input, CallID: compose.GetToolCallID(ctx), Via: "unknown-handler"})
-		rr.mu.Unlock()
+		noteTool(rec, ctx, name, input, "unknown-handler")
 		return unknownResult(name, input), nil
-	}
-}
-
-// ---------------------------------------------------------------------------
-// Custom full-scan StreamToolCallChecker (configuration b)
-// ---------------------------------------------------------------------------
-
-func fullScanChecker(rec *recorder, early bool) func(ctx context.Context, sr *schema.StreamReader[*schema.Message]) (bool, error) {
-	return func(ctx context.Context, sr *schema.StreamReader[*schema.Message]) (bool, error) {
-		defer sr.Close()
-		rr := rec.rec()
-		rr.mu.Lock()
-		rr.checkerCalls++
-		if ctx.Value(ctxKey{}) != nil {
-			rr.checkerCtxOK++
-		}
-		rr.mu.Unlock()
-		has := false
-		for {
-			m, err := sr.Recv()
-			if err == io.EOF {
-				return has, nil
-			}
-			if err != nil {
-				return false, err
-			}
-			if len(m.ToolCalls) > 0 {
-				has = true
-				if early {
-					return true, nil
-				}
-			}
-		}
 	}
 }
 
